@@ -4,6 +4,7 @@ package harness
 
 import (
 	"fmt"
+	"math"
 	"testing"
 
 	"github.com/tidwall/geojson/geometry"
@@ -50,6 +51,7 @@ func convexOracle(pts []exact.P) bool {
 
 func c18Series(c c18Case) geometry.Series {
 	pts := adapt.Pts(c.Pts, c.Enc.Scale)
+	defer adapt.Scribble(pts) // the series keeps its own copy of the caller's slice
 	if c.Closed {
 		return geometry.NewPoly(pts, nil, c.Enc.Opts()).Exterior
 	}
@@ -86,11 +88,60 @@ func c18Check(c c18Case) fw.Outcome {
 		om.Fail = "after Move(3,-5 lattice units) of the series built from " + fmt.Sprint(c.Pts) + ": " + om.Fail
 		return om
 	}
+	// a move so far that the sums round (2^53 lattice units): vertices may merge, so the moved series is
+	// judged against the positions it reports itself - flags carried over from the source would be stale
+	if c.Enc.Scale < 900 && c.Enc.Scale > -1000 && len(c.Pts) > 0 && farFromOrigin(c.Pts) < 1<<22 {
+		big := adapt.F(1<<53, c.Enc.Scale)
+		var fs geometry.Series
+		if c.Closed {
+			fs = geometry.NewPoly(adapt.Pts(c.Pts, c.Enc.Scale), nil, c.Enc.Opts()).Move(big, big).Exterior
+		} else {
+			fs = geometry.NewLine(adapt.Pts(c.Pts, c.Enc.Scale), c.Enc.Opts()).Move(big, big)
+		}
+		far := c
+		far.Pts = make([]exact.P, 0, len(c.Pts))
+		okPts := fs.NumPoints() == len(c.Pts)
+		for i := 0; okPts && i < fs.NumPoints(); i++ {
+			q := fs.PointAt(i)
+			x, y := math.Ldexp(q.X, -c.Enc.Scale), math.Ldexp(q.Y, -c.Enc.Scale)
+			if x != math.Trunc(x) || y != math.Trunc(y) || math.Abs(x) > 1<<54 || math.Abs(y) > 1<<54 {
+				okPts = false
+				break
+			}
+			far.Pts = append(far.Pts, exact.P{X: int64(x), Y: int64(y)})
+		}
+		if !okPts {
+			return fw.Failf(o.Label, "after Move(2^53, 2^53 lattice units) the series reports %d positions (source %d) or positions off the lattice; source %v", fs.NumPoints(), len(c.Pts), c.Pts)
+		}
+		if om := c18Verify(far, fs); om.Fail != "" {
+			om.Fail = "after Move(2^53,2^53 lattice units) of the series built from " + fmt.Sprint(c.Pts) + " (judged against the positions the moved series reports): " + om.Fail
+			return om
+		}
+	}
 	return o
+}
+
+// farFromOrigin is the largest absolute ordinate of the sequence.
+func farFromOrigin(pts []exact.P) int64 {
+	var m int64
+	for _, p := range pts {
+		m = max(m, abs64(p.X), abs64(p.Y))
+	}
+	return m
 }
 
 func c18Verify(c c18Case, s geometry.Series) fw.Outcome {
 	n := len(c.Pts)
+	// the integer oracle multiplies coordinate differences: they must stay below 2^30 (the generators
+	// keep them below 2^22; shrink candidates may not)
+	for i := 1; i < n; i++ {
+		if d := c.Pts[i].X - c.Pts[0].X; d > 1<<30 || d < -(1<<30) {
+			return fw.Outcome{Label: "outside the oracle's domain", Skip: true}
+		}
+		if d := c.Pts[i].Y - c.Pts[0].Y; d > 1<<30 || d < -(1<<30) {
+			return fw.Outcome{Label: "outside the oracle's domain", Skip: true}
+		}
+	}
 	var want []exact.Seg
 	if c.Closed {
 		want = exact.RingEdges(c.Pts)
@@ -248,7 +299,19 @@ func c18Gen(t *rapid.T) c18Case {
 	if closed && len(pts) > 0 && rapid.Bool().Draw(t, "repeat") {
 		pts = append(pts, pts[0])
 	}
-	return c18Case{Pts: pts, Closed: closed, Enc: genEnc(t, len(pts))}
+	enc := genEnc(t, len(pts))
+	if rapid.IntRange(0, 5).Draw(t, "faraway") == 0 {
+		// the same ring far from the origin (still exactly representable): convexity, winding and the
+		// segment rule are translation invariant, absolute ordinates must not leak into them
+		enc.Scale = 0
+		off := []int64{1 << 30, 1 << 40, 1 << 50, (1 << 52) - (1 << 21), -(1 << 30), -(1 << 45), -((1 << 52) - (1 << 21)), 0}
+		tx := rapid.SampledFrom(off).Draw(t, "tx")
+		ty := rapid.SampledFrom(off).Draw(t, "ty")
+		for i := range pts {
+			pts[i] = exact.P{X: pts[i].X + tx, Y: pts[i].Y + ty}
+		}
+	}
+	return c18Case{Pts: pts, Closed: closed, Enc: enc}
 }
 
 func c18Enum(tier string, yield func(c18Case) bool) {
